@@ -1,1 +1,458 @@
-(* C20 stub: to be written *)
+(* C20 -- input validation guards of epgpy, one boolean/verdict function per class of
+   invalid input, composed as the constructors / prepare / _format_states /
+   _parse_partials / check / simulate do.
+
+   Inputs are described abstractly: real numbers as rationals [Q], complex numbers as
+   Gaussian rationals [QI] (Base/QI.v), arrays as shape (list nat) + flat row-major data.
+   A guard returns [Accept] or [Reject e] with [e] the Python exception class.
+
+   np.allclose(a, b) is modelled literally over the reals:
+       |a - b| <= atol + rtol * |b|,   atol = 1e-8, rtol = 1e-5
+   (for complex entries the moduli are square roots; the comparison is decided exactly
+   on the squares by [le_sqrt_aff], proved equivalent to the real-number statement in
+   Proofs/ValidateProofs.v).  Binary64 rounding inside numpy is NOT modelled: the
+   correspondence keeps its inputs away from the tolerance threshold.
+
+   Behaviours that are listed findings sit behind the switches of [quirks].          *)
+From Coq Require Import List ZArith QArith Qcanon Qabs Bool String Lia.
+From EPG Require Import Scalar QI.
+Import ListNotations.
+
+(* ------------------------------------------------------------------ verdicts *)
+Inductive exn : Type :=
+  ValueError | TypeError | AttributeError | RuntimeError | IndexError | OtherError.
+Inductive verdict : Type := Accept | Reject (e : exn).
+
+Definition exn_eqb (a b : exn) : bool :=
+  match a, b with
+  | ValueError, ValueError | TypeError, TypeError | AttributeError, AttributeError
+  | RuntimeError, RuntimeError | IndexError, IndexError | OtherError, OtherError => true
+  | _, _ => false
+  end.
+Definition verdict_eqb (a b : verdict) : bool :=
+  match a, b with
+  | Accept, Accept => true
+  | Reject x, Reject y => exn_eqb x y
+  | _, _ => false
+  end.
+(* raised / not raised only *)
+Definition same_outcome (a b : verdict) : bool :=
+  match a, b with Accept, Accept => true | Reject _, Reject _ => true | _, _ => false end.
+
+(* sequential composition of checks: the first failing check raises *)
+Definition andv (a b : verdict) : verdict := match a with Accept => b | r => r end.
+Infix ">>" := andv (at level 61, left associativity).
+Definition guard (bad : bool) (e : exn) : verdict := if bad then Reject e else Accept.
+
+Record quirks : Type := mkQuirks {
+  q_expm_zero_batch : bool;      (* exchange.expm reshapes eye(n) to a batch: zero generator with batch > 1 raises *)
+  q_diffusion_broadcast1 : bool; (* D._apply lets a size-1 wavenumber/tensor axis broadcast against the other *)
+  q_order2_list : bool;          (* diff._parse_partials builds a set of dicts for order2=[names] -> TypeError *)
+  q_zero_row : bool;             (* shift.S accepts an all-zero row of a batch of shifts (only an all-zero array is refused) *)
+  q_C_list_tau : bool            (* shift.C: common.map_arrays(tau) maps over a python list, `tau < 0` is a TypeError *)
+}.
+
+(* ------------------------------------------------------------------ numbers *)
+Definition atol : Q := 1 # 100000000.
+Definition rtol : Q := 1 # 100000.
+Definition Qltb (x y : Q) : bool := negb (Qle_bool y x).
+(* np.any(x < 0) *)
+Definition any_neg (l : list Q) : bool := existsb (fun d => Qltb d 0) l.
+(* one entry of np.allclose(x, 0), x real: |x - 0| <= atol + rtol*|0| *)
+Definition close0 (x : Q) : bool := Qle_bool (Qabs x) atol.
+Definition allclose0 (l : list Q) : bool := forallb close0 l.
+
+Definition qre (z : QI) : Q := this (fst z).
+Definition qim (z : QI) : Q := this (snd z).
+Definition abs2 (z : QI) : Q := qre z * qre z + qim z * qim z.
+(* decides  sqrt A <= atol + rtol * sqrt B  for A, B >= 0 *)
+Definition le_sqrt_aff (A B : Q) : bool :=
+  Qle_bool A (atol * atol) ||
+  (let L := A + atol * atol - rtol * rtol * B in
+   Qle_bool L 0 || Qle_bool (L * L) (4 * (atol * atol) * A)).
+(* one entry of np.allclose(a, b), complex *)
+Definition cclose (a b : QI) : bool := le_sqrt_aff (abs2 (qi_sub a b)) (abs2 b).
+
+Definition prodn (l : list nat) : nat := fold_right Nat.mul 1%nat l.
+Definition lastd (s : list nat) : nat := last s 0%nat.
+Definition butlast {A} (s : list A) : list A := removelast s.
+Definition sumQ (l : list Q) : Q := fold_right Qplus 0 l.
+
+(* ------------------------------------------------------------------ 1. durations
+   operator.Operator.__init__:  duration None -> 0 ; np.any(np.asarray(duration) < 0) -> ValueError *)
+Definition duration_ok (d : option (list Q)) : verdict :=
+  match d with None => Accept | Some l => guard (any_neg l) ValueError end.
+
+(* duration argument of E, P, D, X, G, C: True means "use tau" *)
+Inductive durarg : Type := DNone | DTrue | DVal (l : list Q).
+Definition eff_duration (d : durarg) (tau : list Q) : option (list Q) :=
+  match d with DNone => None | DTrue => Some tau | DVal l => Some l end.
+(* E, P, D, X: tau itself is not checked, only the resulting duration *)
+Definition timed_op_ok (d : durarg) (tau : list Q) : verdict := duration_ok (eff_duration d tau).
+Definition wait_ok (d : list Q) : verdict := duration_ok (Some d).
+(* Offset: super().__init__(duration=abs(duration)) then self.duration = duration *)
+Definition offset_ok (d : list Q) : verdict := duration_ok (Some (map Qabs d)).
+
+(* ------------------------------------------------------------------ 2./3./4. shifts
+   shift.S.__init__: np.allclose(k,0) -> TypeError; not int: atleast_2d, last dim in 1..4 else ValueError *)
+Inductive karg : Type :=
+| KInt (z : Z)                                        (* python int *)
+| KArr (isfloat : bool) (shape : list nat) (data : list Q).  (* anything else, via np.atleast_2d *)
+
+Definition atleast_2d (s : list nat) : list nat :=
+  match s with [] => [1; 1] | [n] => [1; n] | _ => s end%nat.
+Definition k_data (k : karg) : list Q :=
+  match k with KInt z => [inject_Z z] | KArr _ _ d => d end.
+Definition kdim_of (k : karg) : nat :=
+  match k with KInt _ => 1%nat | KArr _ s _ => lastd (atleast_2d s) end.
+Definition kdim_ok (k : karg) : bool :=
+  match k with KInt _ => true | KArr _ _ _ => (1 <=? kdim_of k)%nat && (kdim_of k <=? 4)%nat end.
+(* row b of the (rows x kdim) array of shifts is zero within the allclose tolerance *)
+Definition row_zero (data : list Q) (kd b : nat) : bool :=
+  forallb (fun c => close0 (nth (b * kd + c) data 0)) (seq 0 kd).
+Definition any_zero_row (k : karg) : bool :=
+  let kd := kdim_of k in
+  existsb (row_zero (k_data k) kd) (seq 0 (List.length (k_data k) / kd)).
+Definition S_ok (q : quirks) (k : karg) (d : option (list Q)) : verdict :=
+  guard (allclose0 (k_data k)) TypeError >>
+  guard (negb (q_zero_row q) && any_zero_row k) TypeError >>
+  guard (negb (kdim_ok k)) ValueError >> duration_ok d.
+
+(* G(tau, gradient): k = c * gradient * tau (c = 2 pi gamma 1e-3 > 0); the model covers the
+   calls where tau or gradient is a scalar, so that the entries of k are all products *)
+Definition outer (c : Q) (tau g : list Q) : list Q :=
+  flat_map (fun t => map (fun x => c * x * t) g) tau.
+Definition G_kshape (tau_shape g_shape : list nat) : list nat :=
+  match g_shape with [] => tau_shape | _ => match tau_shape with [] => g_shape | _ => tau_shape ++ g_shape end end.
+Definition G_ok (q : quirks) (c : Q) (tau_shape : list nat) (tau : list Q) (g_shape : list nat) (g : list Q)
+           (d : durarg) : verdict :=
+  guard (any_neg tau) ValueError >>
+  guard (match g_shape with [] => false | _ => (3 <? lastd g_shape)%nat end) ValueError >>
+  S_ok q (KArr true (G_kshape tau_shape g_shape) (outer c tau g)) (eff_duration d tau).
+(* C(tau): k = stack([0,0,0,tau], axis=-1) *)
+Definition C_ok (q : quirks) (tau_is_pylist : bool) (tau_shape : list nat) (tau : list Q) (d : durarg) : verdict :=
+  guard (q_C_list_tau q && tau_is_pylist) TypeError >>
+  guard (any_neg tau) ValueError >>
+  S_ok q (KArr true (tau_shape ++ [4%nat]) (flat_map (fun t => [0; 0; 0; t]) tau)) (eff_duration d tau).
+
+(* 5. float shift without a grid: S._apply / get_shift_method *)
+Inductive coords : Type := CNone | CInt | CFloat.
+Definition float_method (k : karg) (c : coords) : bool :=
+  match c with
+  | CFloat => true
+  | _ => match k with KInt _ => false | KArr f _ _ => f end
+  end.
+(* sm.options.get("kgrid") or self.kgrid *)
+Definition pick_grid (a b : option Q) : option Q :=
+  match a with Some q => if Qeq_bool q 0 then b else Some q | None => b end.
+Definition is_none {A} (o : option A) : bool := match o with None => true | _ => false end.
+Definition S_apply_ok (k : karg) (c : coords) (grid_sm grid_op : option Q) : verdict :=
+  guard (float_method k c && is_none (pick_grid grid_sm grid_op)) AttributeError.
+
+(* ------------------------------------------------------------------ 6. state matrices
+   statematrix._format_states *)
+Definition at3 (data : list QI) (n b i c : nat) : QI := nth ((b * n + i) * 3 + c) data qi0.
+Definition fsym_at (data : list QI) (n b i : nat) : bool :=
+  cclose (at3 data n b i 1) (qi_conj (at3 data n b (n - 1 - i) 0)).
+Definition zsym_at (data : list QI) (n b i : nat) : bool :=
+  cclose (at3 data n b i 2) (qi_conj (at3 data n b (n - 1 - i) 2)).
+Definition all2d (nb n : nat) (f : nat -> nat -> bool) : bool :=
+  forallb (fun b => forallb (f b) (seq 0 n)) (seq 0 nb).
+Definition sym_ok (data : list QI) (nb n : nat) : verdict :=
+  guard (negb (all2d nb n (fsym_at data n))) ValueError >>
+  guard (negb (all2d nb n (zsym_at data n))) ValueError.
+Definition states_ok (shape : list nat) (data : list QI) : verdict :=
+  match shape with
+  | [] => Reject IndexError
+  | [m] => guard (negb (m =? 3)%nat) ValueError >> sym_ok data 1 1
+  | _ => let c := lastd shape in
+         let n := lastd (butlast shape) in
+         let nb := prodn (butlast (butlast shape)) in
+         guard (negb (c =? 3)%nat) ValueError >> guard (Nat.even n) ValueError >> sym_ok data nb n
+  end.
+
+(* ------------------------------------------------------------------ 7./8. operator coefficients *)
+Definition perm102 (c : nat) : nat := match c with 0 => 1 | 1 => 0 | _ => c end%nat.
+Definition at2 (data : list QI) (b c : nat) : QI := nth (b * 3 + c) data qi0.
+Definition ssym_at (data : list QI) (b c : nat) : bool :=
+  cclose (at2 data b c) (qi_conj (at2 data b (perm102 c))).
+(* opscalar.scalar_format *)
+Definition scalar_format_ok (shape : list nat) (data : list QI) : verdict :=
+  let shape' := match shape with [m] => [1%nat; m] | _ => shape end in
+  guard ((List.length shape' <? 2)%nat || negb (lastd shape' =? 3)%nat) ValueError >>
+  guard (negb (all2d (prodn (butlast shape')) 3 (ssym_at data))) ValueError.
+
+Definition at33 (data : list QI) (b i j : nat) : QI := nth (b * 9 + i * 3 + j) data qi0.
+Definition msym_at (data : list QI) (b ij : nat) : bool :=
+  let i := (ij / 3)%nat in let j := (ij mod 3)%nat in
+  cclose (at33 data b i j) (qi_conj (at33 data b (perm102 i) (perm102 j))).
+(* opmatrix.matrix_format *)
+Definition matrix_format_ok (shape : list nat) (data : list QI) : verdict :=
+  let shape' := match shape with [a; b] => [1%nat; a; b] | _ => shape end in
+  guard ((List.length shape' <? 3)%nat || negb (lastd shape' =? 3)%nat
+         || negb (lastd (butlast shape') =? 3)%nat) ValueError >>
+  guard (negb (all2d (prodn (butlast (butlast shape'))) 9 (msym_at data))) ValueError.
+
+(* numpy broadcasting of two shapes (new axes are prepended): xp.broadcast_arrays(arr, arr0) *)
+Definition pad_pre (n : nat) (s : list nat) : list nat := repeat 1%nat (n - List.length s) ++ s.
+Definition dims_compat (a b : nat) : bool := (a =? 1)%nat || (b =? 1)%nat || (a =? b)%nat.
+Definition np_broadcastable (s1 s2 : list nat) : bool :=
+  let n := Nat.max (List.length s1) (List.length s2) in
+  forallb (fun i => dims_compat (nth i (pad_pre n s1) 1%nat) (nth i (pad_pre n s2) 1%nat)) (seq 0 n).
+
+Definition coef : Type := (list nat * list QI)%type.
+(* ScalarOp(arr, arr0): scalar_setup *)
+Definition scalar_coef_ok (a : coef) (a0 : option coef) : verdict :=
+  scalar_format_ok (fst a) (snd a) >>
+  match a0 with
+  | None => Accept
+  | Some b => scalar_format_ok (fst b) (snd b) >>
+      guard (negb (np_broadcastable (match fst a with [m] => [1%nat; m] | s => s end)
+                                    (match fst b with [m] => [1%nat; m] | s => s end))) ValueError
+  end.
+Definition matrix_coef_ok (a : coef) (a0 : option coef) : verdict :=
+  matrix_format_ok (fst a) (snd a) >>
+  match a0 with
+  | None => Accept
+  | Some b => matrix_format_ok (fst b) (snd b) >>
+      guard (negb (np_broadcastable (match fst a with [x; y] => [1%nat; x; y] | s => s end)
+                                    (match fst b with [x; y] => [1%nat; x; y] | s => s end))) ValueError
+  end.
+
+(* ------------------------------------------------------------------ 9. operator / state shapes
+   common.expand_shapes(append=True), broadcastable, broadcast_shapes *)
+Definition pad_app (n : nat) (s : list nat) : list nat := s ++ repeat 1%nat (n - List.length s).
+Definition dim_app (n : nat) (s : list nat) (i : nat) : nat := nth i (pad_app n s) 1%nat.
+(* len(set(dims) - {1}) <= 1 for two shapes *)
+Definition broadcastable_app (s1 s2 : list nat) : bool :=
+  let n := Nat.max (List.length s1) (List.length s2) in
+  forallb (fun i => dims_compat (dim_app n s1 i) (dim_app n s2 i)) (seq 0 n).
+(* Operator.prepare *)
+Definition prepare_ok (is_statematrix : bool) (sm_shape op_shape : list nat) : verdict :=
+  guard (negb is_statematrix) TypeError >>
+  guard (negb (broadcastable_app sm_shape op_shape)) ValueError.
+
+Definition maxlen (shapes : list (list nat)) : nat := fold_right (fun s m => Nat.max (List.length s) m) 0%nat shapes.
+Definition axis_dims (shapes : list (list nat)) (n i : nat) : list nat :=
+  filter (fun d => (1 <? d)%nat) (map (fun s => dim_app n s i) shapes).
+Definition all_eq (l : list nat) : bool :=
+  match l with [] => true | x :: t => forallb (Nat.eqb x) t end.
+(* broadcast_shapes(shapes..., append=True) does not raise *)
+Definition bshapes_ok (shapes : list (list nat)) : bool :=
+  let n := maxlen shapes in forallb (fun i => all_eq (axis_dims shapes n i)) (seq 0 n).
+Definition bshape (shapes : list (list nat)) : list nat :=
+  let n := maxlen shapes in map (fun i => hd 1%nat (axis_dims shapes n i)) (seq 0 n).
+
+(* MultiOperator(items): append each item; None = not an Operator *)
+Fixpoint multi_ok (cur : list nat) (items : list (option (list nat))) : verdict :=
+  match items with
+  | [] => Accept
+  | None :: _ => Reject TypeError
+  | Some s :: t => if bshapes_ok [cur; s] then multi_ok (bshape [cur; s]) t else Reject ValueError
+  end.
+Definition multioperator_ok (items : list (option (list nat))) : verdict := multi_ok [1%nat] items.
+
+(* ------------------------------------------------------------------ 10. kinetic matrices
+   exchange.X.__init__ (axis=-1), exchange_matrix, X._apply *)
+Inductive khiarg : Type := KhiScalar (q : Q) | KhiArr (shape : list nat) (data : list Q).
+Definition at_khi (data : list Q) (n b i j : nat) : Q := nth ((b * n + i) * n + j) data 0.
+Definition colsum (data : list Q) (n b j : nat) : Q :=
+  sumQ (map (fun i => at_khi data n b i j) (seq 0 n)).
+Definition khi_ok (khi : khiarg) : verdict :=
+  match khi with
+  | KhiScalar q => guard (Qltb q 0) ValueError
+  | KhiArr shape data =>
+      guard (List.length shape <? 2)%nat ValueError >>
+      (let n := lastd shape in
+       let r := lastd (butlast shape) in
+       let nb := prodn (butlast (butlast shape)) in
+       guard (negb (r =? n)%nat) ValueError >>
+       guard (negb (forallb (fun j => forallb (fun b => close0 (colsum data n b j)) (seq 0 nb)) (seq 0 n)))
+             ValueError)
+  end.
+(* expm(): xp.isclose(norm(mat), 0) -> eye(n).reshape(mat.shape), which raises for a batch *)
+Definition khi_batch (khi : khiarg) : nat :=
+  match khi with KhiScalar _ => 1%nat | KhiArr shape _ => prodn (butlast (butlast shape)) end.
+Definition khi_entries (khi : khiarg) : list Q :=
+  match khi with KhiScalar q => [q; q; q; q] | KhiArr _ d => d end.
+Definition gen_norm2 (tau : Q) (khi : khiarg) : Q := sumQ (map (fun x => (tau * x) * (tau * x)) (khi_entries khi)).
+Definition expm_ok (q : quirks) (tau : Q) (khi : khiarg) : verdict :=
+  guard (q_expm_zero_batch q && negb (khi_batch khi =? 1)%nat
+         && Qle_bool (gen_norm2 tau khi) (atol * atol)) ValueError.
+(* X(tau, khi, duration=d) with scalar tau and T1 = T2 = g = None *)
+Definition X_ok (q : quirks) (tau : Q) (khi : khiarg) (d : durarg) : verdict :=
+  khi_ok khi >> expm_ok q tau khi >> duration_ok (eff_duration d [tau]).
+
+(* X._apply on an un-batched n x n matrix: prepare, then khi . density ~ 0 row by row *)
+Definition rowdot (data : list Q) (n : nat) (dens : list Q) (i : nat) : Q :=
+  sumQ (map (fun j => at_khi data n 0 i j * nth (if (List.length dens =? 1)%nat then 0%nat else j) dens 0) (seq 0 n)).
+Definition X_apply_ok (n : nat) (data : list Q) (dens : list Q) : verdict :=
+  prepare_ok true [List.length dens] [n] >>
+  guard (negb (forallb (fun i => close0 (rowdot data n dens i)) (seq 0 n))) RuntimeError.
+
+(* ------------------------------------------------------------------ 11. diffusion
+   diffusion.get_shape(tau, D, k) *)
+Definition last2_differ (s : list nat) : bool :=
+  match rev s with a :: b :: _ => negb (a =? b)%nat | _ => false end.
+Definition D_shape_ok (tau_shape D_shape : list nat) (k_shape : option (list nat)) : verdict :=
+  let ks := match k_shape with None => [] | Some [n] => [1%nat; n] | Some s => s end in
+  guard (List.length D_shape =? 1)%nat ValueError >>
+  guard (last2_differ D_shape) ValueError >>
+  guard (negb (List.length D_shape =? 0)%nat && negb (List.length ks =? 0)%nat
+         && negb (lastd D_shape =? lastd ks)%nat) ValueError >>
+  guard (negb (bshapes_ok [tau_shape; butlast (butlast D_shape); butlast ks; [1%nat]])) ValueError.
+
+(* D._apply on a state whose wavenumbers have kd = min(kdim,3) components, with an un-batched
+   tensor (m x m, None = scalar D) and an optional shift k with kk components.
+   numpy broadcasting decides; with the repaired behaviour (switch off) sizes must agree. *)
+Definition bc1 (q : quirks) (a b : nat) : bool :=
+  (a =? b)%nat || (q_diffusion_broadcast1 q && ((a =? 1)%nat || (b =? 1)%nat)).
+Definition D_apply_ok (q : quirks) (m kk : option nat) (kd : nat) : verdict :=
+  let after_k :=
+    match kk with
+    | None => (Accept, kd)
+    | Some j =>
+        (guard (negb (bc1 q kd j)) ValueError >>       (* sm.k - shift *)
+         guard (3 <? Nat.max kd j)%nat ValueError >>    (* only 1d, 2d, 3d wavenumbers *)
+         guard (negb (Nat.max kd j =? kd)%nat) ValueError, (* k2.shape[-1] != k1.shape[-1] *)
+         Nat.max kd j)
+    end in
+  fst after_k >>
+  match m with
+  | None => Accept
+  | Some mm => guard (negb (bc1 q (snd after_k) mm)) ValueError
+  end.
+
+(* ------------------------------------------------------------------ 12. differentiation arguments
+   diff.DiffOperator._parse_partials *)
+Open Scope string_scope.
+Definition smem (s : string) (l : list string) : bool := existsb (String.eqb s) l.
+Inductive o1arg : Type :=
+| O1False | O1True | O1Str (s : string) | O1List (l : list string)
+| O1Alias (l : list (string * string)) | O1Coef (l : list (string * list string)) | O1Bad.
+Inductive o2arg : Type :=
+| O2False | O2True | O2Str (s : string) | O2StrList (l : list string)
+| O2Pairs (l : list (string * string))
+| O2Dict (l : list ((string * string) * list string)) | O2Bad.
+
+Definition o1_falsy (a : o1arg) : bool :=
+  match a with O1False => true | O1List [] => true | O1Alias [] => true | O1Coef [] => true | _ => false end.
+Definition o2_falsy (a : o2arg) : bool :=
+  match a with O2False => true | O2StrList [] => true | O2Pairs [] => true | O2Dict [] => true | _ => false end.
+(* order1 normalised to {variable: {parameter: coeff}}; None = "Invalid parameter 'order1' value" *)
+Definition norm_o1 (params : list string) (a : o1arg) : option (list (string * list string)) :=
+  if o1_falsy a then Some [] else
+  match a with
+  | O1True => Some (map (fun p => (p, [p])) params)
+  | O1Str s => Some [(s, [s])]
+  | O1List l => Some (map (fun p => (p, [p])) l)
+  | O1Alias l => Some (map (fun vp => (fst vp, [snd vp])) l)
+  | O1Coef l => Some l
+  | _ => None
+  end.
+Definition pair_touches (vars : list string) (p : string * string) : bool :=
+  smem (fst p) vars || smem (snd p) vars.
+Definition pair_inside (vars : list string) (p : string * string) : bool :=
+  smem (fst p) vars && smem (snd p) vars.
+Definition parse_partials_ok (q : quirks) (params : list string) (params2 : list (string * string))
+           (a1 : o1arg) (a2 : o2arg) : verdict :=
+  let a1' := if o1_falsy a1 then match a2 with O2True => O1True | O2Str s => O1Str s | _ => a1 end else a1 in
+  match norm_o1 params a1' with
+  | None => Reject ValueError
+  | Some o1 =>
+      guard (existsb (fun vc => existsb (fun p => negb (smem p params)) (snd vc)) o1) ValueError >>
+      if o2_falsy a2 then Accept else
+      guard (match o1 with [] => true | _ => false end) ValueError >>
+      (let vars := map fst o1 in
+       let o2 : option (verdict + list ((string * string) * list string)) :=
+         match a2 with
+         | O2True => Some (inr (map (fun p => (p, [])) params2))
+         | O2Str s => Some (inr [((s, s), [])])
+         | O2StrList l => if q_order2_list q then Some (inl (Reject TypeError))
+                          else Some (inr (flat_map (fun a => map (fun b => ((a, b), [])) l) l))
+         | O2Pairs l => Some (inr (map (fun p => (p, [])) l))
+         | O2Dict l => Some (inr l)
+         | _ => None
+         end in
+       match o2 with
+       | None => Reject ValueError
+       | Some (inl v) => v
+       | Some (inr pairs) =>
+           guard (existsb (fun pc => negb (pair_touches vars (fst pc))) pairs) ValueError >>
+           guard (existsb (fun pc => negb (pair_inside vars (fst pc))
+                                     && match snd pc with [] => false | _ => true end) pairs) ValueError >>
+           guard (existsb (fun pc => existsb (fun p => negb (smem p params)) (snd pc)) pairs) ValueError
+       end)
+  end.
+
+(* ------------------------------------------------------------------ 13. sequences
+   functions.flatten_sequence + getshape + simulate's probe check *)
+Inductive item : Type :=
+| IOp (shape : list nat)        (* an operator that is not a probe *)
+| IProbe                        (* Probe / ADC *)
+| IMulti (ops : list item)      (* MultiOperator *)
+| IList (l : list item)         (* nested python list *)
+| INonOp.                       (* anything else: number, str, None, tuple ... *)
+
+(* flat list of leaves, None when an invalid item is met *)
+Fixpoint flatten (fuel : nat) (l : list item) : option (list item) :=
+  match fuel with
+  | O => None
+  | S f =>
+      match l with
+      | [] => Some []
+      | x :: t =>
+          match (match x with
+                 | IOp _ | IProbe => Some [x]
+                 | IMulti ops | IList ops => flatten f ops
+                 | INonOp => None
+                 end), flatten f t with
+          | Some a, Some b => Some (a ++ b)%list
+          | _, _ => None
+          end
+      end
+  end.
+Definition leaf_shape (x : item) : list nat := match x with IOp s => s | _ => [1%nat] end.
+Definition is_probe (x : item) : bool := match x with IProbe => true | _ => false end.
+(* flatten_sequence + getshape: shared by simulate and modify *)
+Definition flatten_shape_ok (fuel : nat) (l : list item) : verdict :=
+  match flatten fuel l with
+  | None => Reject ValueError
+  | Some leaves =>
+      guard (match leaves with [] => true | _ => false end) ValueError >>   (* max() of an empty list *)
+      guard (negb (bshapes_ok (map leaf_shape leaves))) ValueError
+  end.
+Definition has_probe (fuel : nat) (l : list item) : bool :=
+  match flatten fuel l with Some leaves => existsb is_probe leaves | None => false end.
+Definition simulate_ok (fuel : nat) (l : list item) : verdict :=
+  flatten_shape_ok fuel l >> guard (negb (has_probe fuel l)) ValueError.
+(* functions.modify(sequence, modifier, ...) *)
+Definition modify_ok (fuel : nat) (l : list item) (modifier_callable : bool) : verdict :=
+  flatten_shape_ok fuel l >> guard (negb modifier_callable) TypeError.
+
+(* sequence.Sequence: check() on the flattened items (true = VirtualOperator or known string) *)
+Definition seq_check_ok (items : list bool) : verdict := guard (negb (forallb (fun b => b) items)) ValueError.
+(* Sequence.build + Variable.__call__: every variable of the sequence needs a value;
+   order1 / order2 variables must belong to the sequence ("magnitude" is filtered out) *)
+Definition seq_values_ok (variables given : list string) : verdict :=
+  guard (existsb (fun v => negb (smem v given)) variables) ValueError.
+Definition not_magnitude (s : string) : bool := negb (String.eqb s "magnitude").
+Definition seq_build_ok (variables order1 : list string) (order2 : list (string * string))
+           (given : list string) : verdict :=
+  guard (existsb (fun v => negb (smem v variables)) (filter not_magnitude order1)) ValueError >>
+  guard (existsb (fun p => negb (smem (fst p) variables) || negb (smem (snd p) variables))
+           (filter (fun p => not_magnitude (fst p) && not_magnitude (snd p)) order2)) ValueError >>
+  seq_values_ok variables given.
+Close Scope string_scope.
+
+(* ------------------------------------------------------------------ 14. RF pulses
+   rfpulse.rfpulse + make_pulse_sequence (+ the duration check of each T) *)
+Inductive pulsedur : Type := PScalar (d : Q) | PList (l : list Q).
+Definition pulse_ok (have_rf_or_alpha : bool) (ndim : nat) (values : list QI) (dur : pulsedur) : verdict :=
+  guard (negb have_rf_or_alpha) ValueError >>
+  guard (1 <? ndim)%nat ValueError >>
+  guard (existsb (fun v => Qltb 1 (abs2 v)) values) ValueError >>
+  match dur with
+  | PScalar d => guard (Qltb d 0) ValueError
+  | PList l => guard (negb (List.length l =? List.length values)%nat) ValueError >> duration_ok (Some l)
+  end.
